@@ -277,7 +277,7 @@ Lemma loop_tail_dead w files idx ll total (r1 : bool) : dead w ->
 Proof. intros D. destruct r1; [apply cleanup_loop_dead; exact D | eauto]. Qed.
 
 Lemma cleanup_budget c crit k n m q closed ocur j :
-  numkcfg c crit k -> klim k = Some (n, m) -> sfx_ok (c_spec c) -> (N.of_nat (length closed) <= 100000)%N -> quiet q ->
+  numkcfg c crit k -> klim k = Some (n, m) -> sfx_ok (c_spec c) -> quiet q ->
   kst c (wfs q) (wfs q) closed ocur (k_lo k (length closed - 1)) (k_mid k (length closed - 1)) None ->
   exists r w', cleanup_impl c (kw q (S j)) k IFNum false = (r, w') /\
     ( (exists f' j', w' = kw (set_fs q f') (S j') /\ r = Ok tt
@@ -285,12 +285,12 @@ Lemma cleanup_budget c crit k n m q closed ocur j :
       \/ (exists f' lo mid red, w' = kw (set_fs q f') 0 /\ kst c (wfs q) f' closed ocur lo mid red
                                 /\ uncl k (length closed) lo mid) ).
 Proof.
-  intros (Hrot & Hts & Hlink & Has & Hbg) Hk Hsfx HL Q K. unfold uncl, k_lo, k_mid in *. rewrite Hk in *.
+  intros (Hrot & Hts & Hlink & Has & Hbg) Hk Hsfx Q K. unfold uncl, k_lo, k_mid in *. rewrite Hk in *.
   set (L := length closed) in *. pose proof K as [W Nd X Sc].
   assert (KD : kdir c (wfs q) closed (L - 1 - (n + m)) (L - 1 - n)) by (eapply xdir_kdir; eassumption).
   pose proof (kd_le _ _ _ _ _ KD) as Hle. fold L in Hle.
   rewrite (cleanup_impl_kw_unfold c q (S j) k IFNum n m Hk Q), (fixed_of_fixed0 c _ Hts).
-  rewrite (list_log_gz_numbers c (wfs q) (woff q) _ _ L Hsfx HL (kdir_shape _ _ _ _ _ KD)).
+  rewrite (list_log_gz_numbers c (wfs q) (woff q) _ _ L Hsfx (kdir_shape _ _ _ _ _ KD)).
   rewrite (listing_no_redundant c _ _ L Hsfx Hle). cbn [remove_redundant negb].
   destruct (Nat.le_gt_cases L n) as [HLn|HLn].
   - (* fewer closed files than the limit: nothing to do *)
@@ -353,14 +353,14 @@ Qed.
 
 (* fewer closed files than the limit for plain files: the cleanup has no effect (and no kill point) *)
 Lemma cleanup_budget_noop c crit k n m q closed lo mid j :
-  numkcfg c crit k -> klim k = Some (n, m) -> sfx_ok (c_spec c) -> (N.of_nat (length closed) <= 100000)%N -> quiet q ->
+  numkcfg c crit k -> klim k = Some (n, m) -> sfx_ok (c_spec c) -> quiet q ->
   kdir c (wfs q) closed lo mid -> length closed <= n ->
   cleanup_impl c (kw q j) k IFNum false = (Ok tt, kw q j).
 Proof.
-  intros (Hrot & Hts & Hlink & Has & Hbg) Hk Hsfx HL Q KD Hn.
+  intros (Hrot & Hts & Hlink & Has & Hbg) Hk Hsfx Q KD Hn.
   pose proof (kd_le _ _ _ _ _ KD) as Hle.
   rewrite (cleanup_impl_kw_unfold c q j k IFNum n m Hk Q), (fixed_of_fixed0 c _ Hts).
-  rewrite (list_log_gz_numbers c (wfs q) (woff q) _ _ _ Hsfx HL (kdir_shape _ _ _ _ _ KD)).
+  rewrite (list_log_gz_numbers c (wfs q) (woff q) _ _ _ Hsfx (kdir_shape _ _ _ _ _ KD)).
   rewrite (listing_no_redundant c _ _ _ Hsfx Hle). cbn [remove_redundant negb].
   rewrite cleanup_loop_all_keep; [reflexivity|].
   intros k0 x Hk0. apply listing_nth_inv in Hk0; [|exact Hle]. apply act_keep_below; lia.
